@@ -31,6 +31,10 @@ EDGE_SETS = [[0.1, 0.3, 0.5, 0.9], [0.1, 0.4, 0.6, 0.9], [0.1, 0.5, 0.9], [0.2, 
              [0.1, float(np.nextafter(0.3, 1.0)), float(np.nextafter(0.5, 1.0)), 0.9]]
 
 
+NESTED = [([0.1, 0.3, 0.5, 0.9], [0.1, 0.5, 0.9]), ([0.2, 0.3, 0.5, 0.7, 0.9], [0.2, 0.5, 0.9]), ([0.1, 0.3, 0.5, 0.9], [0.1, 0.9]),
+          ([0.2, 0.3, 0.5, 0.7, 0.9], [0.3, 0.7])]
+
+
 def enc_bin(b):
     if b is None:
         return "u"
@@ -73,7 +77,7 @@ def observe(cat, z_by_patch):
             else:
                 sizes = [x.num_records for x in t]
                 trees = f"?sizes:{sizes}"
-                for e in EDGE_SETS:
+                for e in EDGE_SETS + [co for _, co in NESTED if co not in EDGE_SETS]:
                     for closed in ("left", "right"):
                         if len(e) - 1 != len(sizes):
                             continue
@@ -146,6 +150,13 @@ def run(prop, tier, seed, replay):
                     if hi % 8 == 0:
                         # the last measurement must not find trees of the nearly equal binning acceptable
                         script = [((m, b2), 0), ((m, b1), 0)]
+                    if hi % 8 == 4:
+                        # a coarse binning whose edges are ALL edges of the finer binning measured before (every second edge, the
+                        # outer edges only, an inner sub-range): none of the cached per-bin trees is a tree of the coarse binning
+                        fine, coarse = NESTED[(hi // 8) % len(NESTED)]
+                        side = rng.choice(["left", "right"])
+                        script = [((m, (fine, side)), 0), ((m, (coarse, side)), 0)]
+                        ck.count("stratum=nested-binnings")
                     length = len(script)
                 no_model = False
                 if hi % 4 == 2:
